@@ -34,7 +34,7 @@ ASSUMPTIONS = [
     "symbolic integer default bounded to 0..99 (analyser) / -99..99 (renderer) - CrossHair forks on the decimal digits, so "
     "this is in effect a solver-driven exhaustive sweep of that range; float/str defaults are the constants 1.5 and 's'",
 ]
-BOUNDS = {"quick": "<= 2 parameters (second parameter: 3 default kinds); 4465 signatures", "thorough": "<= 3 parameters, all default kinds"}
+BOUNDS = {"quick": "<= 2 parameters (second parameter: 3 default kinds); 4465 signatures", "thorough": "<= 2 parameters with all 10 default kinds; 3 parameters with all default kinds for the first and 3 kinds for the others (50 565 signatures)"}
 MANIFEST = {
     "text": "Bounded symbolic: classification table decided by z3; the analyser's parameter walk and the generator's "
             "parameter rendering are executed by CrossHair on every signature within the bound with the integer default "
